@@ -210,8 +210,13 @@ def generate(seed, tier, idx=0):
         sizes += [100, 400, 1500]
     n = rng.choice(sizes)
     valreg = rng.choice(["ints", "dyadic", "equal", "offset", "uniform"])
+    # 'wild': values and weights spanning dozens of orders of magnitude; there only
+    # "every query returns a value or NaN and never raises" is judged
+    wild = rng.random() < 0.06
 
     def val():
+        if wild:
+            return rng.choice([-1, 1]) * rng.choice([1.0, 2.5, 9.99]) * 10.0 ** rng.randint(-5, 16)
         if valreg == "ints":
             return rng.randint(-4, 9)
         if valreg == "dyadic":
@@ -233,6 +238,8 @@ def generate(seed, tier, idx=0):
                 w = rng.choice([0.0, 1e-9, 1e-3, 1.0])
             else:
                 w = rng.choice([0, 0.0, 0.5, 1, 1.0, 2, 3.5, 10.0])
+            if wild and rng.random() < 0.8:
+                w = rng.choice([1.0, 3.0]) * 10.0 ** rng.randint(-20, 3)
             ops.append(["reg", w, val()])
             r = rng.random()
             if r < 0.07:
@@ -289,6 +296,8 @@ def generate(seed, tier, idx=0):
                      else rng.choice([0, 1e-9, 2e-10]) if nano else (rng.choice([0, 1e-6, 1e-7, 2.0]) if fine else rng.choice([0, 2, 9])))
             ops.append(["end", t])
     case = {"kind": kind, "variant": variant, "ops": ops, "quantities": rng.random() < 0.1}
+    if wild:
+        case["wild"] = True
     if rng.random() < 0.15:
         case["bound"] = True       # observations arrive through a bound method taken at the start
     if kind == "timestamp" and bigint:
@@ -384,6 +393,8 @@ def run(case):
             if isinstance(got[name], str):
                 return ("getter", "after op #%d: %s() %s (observations %s)"
                         % (step, name, got[name], obs[:6]))
+        if case.get("wild"):
+            return None
         for name in names:
             exact, tol = ex[name]
             msg = refstats.compare(name, got[name], exact, tol)
